@@ -28,7 +28,7 @@ def stress_api(variant):
     F = ['r_resource', 's_two_services', 'm_lro', 'f_map', 'f_crossfile', 'f_enum', 'f_nested', 'o_grpc_rest', 'o_metadata', 's_flatten',
          'r_file_level', 'f_deppkg', 'f_wkt', 'm_paged_map', 's_required']
     if variant % 2:
-        F += ['o_mixins', 's_routing', 'm_sstream', 'm_raw_operation']
+        F += ['o_mixins', 's_routing', 'm_sstream', 'm_raw_operation', 's_uuid4']
     api, opts = features.build(F)
     main = [f for f in api['files'] if f['name'].endswith('library.proto')][0]
     # equal short resource type names under different domains (equal sort keys), plus more resources
@@ -105,11 +105,57 @@ def orders_of(events):
     return out
 
 
+# "... and wall-clock time": one process of every comparison runs with its clock set years ahead (a sitecustomize module, found
+# through PYTHONPATH, replaces datetime.date / datetime.datetime by subclasses with shifted today()/now()/utcnow() and shifts
+# time.time / time.localtime / time.gmtime / time.strftime defaults)
+CLOCK_SHIFT = r'''
+import datetime as _dt, time as _t, os as _os
+_D = int(_os.environ.get('VERIF_CLOCK_SHIFT_DAYS', '0'))
+if _D:
+    _delta = _dt.timedelta(days=_D)
+    _date, _datetime = _dt.date, _dt.datetime
+    class date(_date):
+        @classmethod
+        def today(cls):
+            return _date.today() + _delta
+    class datetime(_datetime):
+        @classmethod
+        def now(cls, tz=None):
+            return _datetime.now(tz) + _delta
+        @classmethod
+        def utcnow(cls):
+            return _datetime.utcnow() + _delta
+        @classmethod
+        def today(cls):
+            return _datetime.today() + _delta
+    _dt.date, _dt.datetime = date, datetime
+    _time, _localtime, _gmtime, _strftime = _t.time, _t.localtime, _t.gmtime, _t.strftime
+    _t.time = lambda: _time() + _D * 86400.0
+    _t.localtime = lambda secs=None: _localtime(_t.time() if secs is None else secs)
+    _t.gmtime = lambda secs=None: _gmtime(_t.time() if secs is None else secs)
+    _t.strftime = lambda fmt, t=None: _strftime(fmt, _t.localtime() if t is None else t)
+'''
+
+
+def clock_dir(work):
+    d = os.path.join(work, 'clock')
+    if not os.path.isdir(d):
+        os.makedirs(d)
+        with open(os.path.join(d, 'sitecustomize.py'), 'w') as f:
+            f.write(CLOCK_SHIFT)
+    return d
+
+
 def run_one(args):
-    req_bytes, seed, cwd = args
+    req_bytes, seed, cwd = args[:3]
+    shift = args[3] if len(args) > 3 else None
     fd, tf = tempfile.mkstemp(prefix='gapicverif-det-', suffix='.ndjson'); os.close(fd)
     try:
-        rc, out, err = gen.generate_subprocess(req_bytes, env={'PYTHONHASHSEED': seed, gen.GUARD: tf}, cwd=cwd, timeout=600)
+        env = {'PYTHONHASHSEED': seed, gen.GUARD: tf}
+        if shift:
+            env['VERIF_CLOCK_SHIFT_DAYS'] = str(shift[1])
+            env['PYTHONPATH'] = os.pathsep.join([shift[0]] + ([os.environ['PYTHONPATH']] if os.environ.get('PYTHONPATH') else []))
+        rc, out, err = gen.generate_subprocess(req_bytes, env=env, cwd=cwd, timeout=600)
         with open(tf) as f:
             events = [json.loads(l) for l in f if l.strip()]
     finally:
@@ -201,6 +247,7 @@ def main(chk, args):
             creq = absapi.build_request(api, ostr)
             b = creq.SerializeToString()
             jobs = [(b, s, cwd1 if i % 2 == 0 else cwd2) for i, s in enumerate(seeds)]
+            jobs[-1] = jobs[-1] + ((clock_dir(work), 5 * 366 + 40),)          # the last process lives five years and forty days later
             # purity: the same request generated in a process that generated other requests (same names, other content) or
             # the same request before
             wdir = os.path.join(work, 'warm-' + hashlib.sha1(name.encode()).hexdigest()[:8]); os.makedirs(wdir)
@@ -274,7 +321,8 @@ def main(chk, args):
     for name, t in traces[:2]:
         chk.sample(dict(input=name, events=t['events'][:6]))
     chk.assumptions += ['wall-clock independence is covered only in so far as the runs happen at different times',
-                        'hook events (iteration orders) are emitted with the guard on in every compared process; the guard does not change the response']
+                        'hook events (iteration orders) are emitted with the guard on in every compared process; the guard does not change the response',
+                        'wall-clock time: one process per comparison runs with datetime / time shifted five years ahead (Python-level clock only)']
 
 
 main.level = 'model_checking'
